@@ -93,6 +93,29 @@ def SitesOkList (tbl : Table) : List Expr → Bool
   | e :: es => SitesOk tbl e && SitesOkList tbl es
 end
 
+mutual
+/-- defect exclusion: the built-in `isNonnull` is a function but its handler does not look at the
+call style; `StyleStrict` says it is never invoked like a method -/
+def StyleStrict (tbl : Table) : Expr → Bool
+  | .name _ => true
+  | .const _ => true
+  | .opaque _ => true
+  | .attr o _ => StyleStrict tbl o
+  | .binop _ l r => StyleStrict tbl l && StyleStrict tbl r
+  | .cpp _ args => StyleStrictList tbl args
+  | .call f args => StyleStrict tbl f && StyleStrictList tbl args &&
+      (match (calleeKey f).bind tbl.get?, shape f with
+       | some .nonnull, .attrName _ _ => false
+       | _, _ => true)
+def StyleStrictList (tbl : Table) : List Expr → Bool
+  | [] => true
+  | e :: es => StyleStrict tbl e && StyleStrictList tbl es
+end
+
+/-- what the property demands: every recognised call site has the declared arity and the declared
+call style — for `isNonnull` too -/
+def SitesOkFull (tbl : Table) (e : Expr) : Bool := SitesOk tbl e && StyleStrict tbl e
+
 /-- the name a call is made under, whatever the receiver is (what the property means by "every call") -/
 def calleeNameFull (f : Expr) : Option Str :=
   match shape f with
